@@ -25,13 +25,24 @@ RULE = ("(a) exhaustive: every flow grid of shape 1x1..2x2 (thorough adds "
         "with >= 2 cells upstream.")
 
 
-def run_accumulate(fd, field, nodata, fdtype, nprint, cap, bounds=False):
+# georeferencing of the flow grid / of the field grid: the accumulation works
+# cell by cell on two grids of the same shape, whatever their headers say
+GEOM = {"default": {}, "header": dict(cellsize=2., xllcorner=130.,
+                                      yllcorner=-39.),
+        "fine": dict(cellsize=0.001, xllcorner=-3e5, yllcorner=6e6)}
+GEOMS = [("default", "default"), ("header", "header"),
+         ("header", "default"), ("default", "fine"), ("fine", "header")]
+
+
+def run_accumulate(fd, field, nodata, fdtype, nprint, cap, bounds=False,
+                   geoms=("default", "default")):
     nr, nc = fd.shape
-    g = Grid("fd", nc, nr, dtype=fdtype)
+    g = Grid("fd", nc, nr, dtype=fdtype, **GEOM[geoms[0]])
     g.data = fd.astype(fdtype)
     ta = None
     if field is not None:
-        ta = Grid("ta", nc, nr, dtype=field.dtype.type, nodata=nodata)
+        ta = Grid("ta", nc, nr, dtype=field.dtype.type, nodata=nodata,
+                  **GEOM[geoms[1]])
         ta.data = field
         if bounds:
             # declared valid range of the field itself (it does not alter
@@ -43,7 +54,7 @@ def run_accumulate(fd, field, nodata, fdtype, nprint, cap, bounds=False):
 
 
 def check(fd, field, nodata, fdtype=np.int64, nprint=100, cap=-1,
-          labels=None, bounds=False):
+          labels=None, bounds=False, geoms=("default", "default")):
     """Returns the non-triviality flag."""
     quiet()
     nr, nc = fd.shape
@@ -56,7 +67,7 @@ def check(fd, field, nodata, fdtype=np.int64, nprint=100, cap=-1,
     capped = cap != -1
     try:
         g, ta, accg = run_accumulate(fd, field, nodata, fdtype, nprint, cap,
-                                     bounds)
+                                     bounds, geoms)
     except ValueError as e:
         if anycyc or capped:
             if labels is not None:
@@ -127,7 +138,8 @@ def exhaustive_oracle(case):
     # distinct powers of 3 (negative for odd cells): every subset sum differs
     field = np.array([(-1.0) ** c * 3.0 ** c for c in range(fd.size)]
                      ).reshape(nr, nc)
-    nt = check(fd, field, -9999., labels=labels)
+    nt = check(fd, field, -9999., labels=labels,
+               geoms=GEOMS[int(fd.sum()) % len(GEOMS)])
     check(fd, np.abs(field), -1., labels=labels, bounds=True)
     return {"nt": nt, "labels": sorted(labels)}
 
@@ -194,9 +206,12 @@ def random_oracle(case):
     nodata = case["nodata"]
     if case["fkind"] == "int" and np.isnan(nodata):
         nodata = -9999.
+    geoms = GEOMS[(len(case["fd"]) + int(case["nprint"]) + nr) % len(GEOMS)] \
+        if case.get("geoms") is None else tuple(case["geoms"])
+    labels.add(f"georeference:{geoms[0]}/{geoms[1]}")
     nt = check(fd, field, nodata, fdtype=np.dtype(case["fdtype"]).type,
                nprint=case["nprint"], cap=case["cap"], labels=labels,
-               bounds=case.get("bounds", False))
+               bounds=case.get("bounds", False), geoms=geoms)
     if case.get("bounds") and field is not None:
         labels.add("field-with-data-bounds")
     if case["cap"] != -1:
